@@ -281,6 +281,10 @@ def run(ctx):
               f"AstEval reads allow_all_imports from the removed entry, imports the new configuration forbids are performed", key="config entry rebound on setup",
               node=program.func("__init__.py::async_setup_entry"), rel="__init__.py", sample={"readers": len(reads)})
 
+    ctx.rule("R17.9", "text run through eval()/exec() keeps the script's print and log.* (the evaluator-level names of the calling evaluator) for every combination of "
+             "explicit globals / locals: explicit namespaces replace the variables, not the logger functions", floor=3)
+    eval_namespace_rule(ctx, program, "R17.9")
+
     ctx.rule("R17.4", "eval()/exec() of source text run through the interpreter; natively executed script code gets no unrestricted builtins", floor=2)
     f = program.func("eval.py::ast_eval_exec_factory.eval_func")
     ok = any(isinstance(n, ast.Call) and call_name(n) == "AstEval" for n in body_walk(f)) and any(isinstance(n, ast.Call) and (call_name(n) or "").endswith(".aeval") for n in body_walk(f))
@@ -300,3 +304,31 @@ def run(ctx):
         "name by name and compared (raise before bind/import).  ast_name is interpreted for the excluded names in two evaluation contexts.  Who-may-call for importlib/sys.modules/exec/compile. "
         "Not decided: the universe of installed module names."
     )
+
+
+def eval_namespace_rule(ctx, program, rid):
+    from ..absint import Const, DictV, ObjV, Sym
+    from ..flow import FlowPolicy, exits, run_flow
+    uid = "eval.py::ast_eval_exec_factory.eval_func"
+    own = DictV([(Const("print"), Sym(("script print",))), (Const("log.info"), Sym(("script log.info",)))], "caller.local_sym_table")
+    for label, g, l in (("no namespaces", None, None), ("explicit globals", "g", None), ("explicit globals and locals", "g", "l")):
+        seen = []
+
+        def aeval(i, n, a, k, c, o, seen=seen):
+            seen.append(c.heap.get("ev.local_sym_table"))
+            return [(c, Const(None))]
+
+        pol = FlowPolicy(program, may_raise_all=False, cancel=False, globals_={"ast_ctx": ObjV("caller", "AstEval"), "mode": Const("exec")},
+                         summaries={"AstEval": lambda i, n, a, k, c, o: [(c, ObjV("ev", "AstEval"))], "eval_ast.parse": lambda i, n, a, k, c, o: [(c, Const(None))], "eval_ast.aeval": aeval})
+        pol.loop_unroll = 3
+        gtab = DictV([(Const("x"), Const(1))], "caller.global_sym_table")
+        heap = {"caller.local_sym_table": own, "caller.global_sym_table": gtab, "caller.sym_table": gtab, "caller.sym_table_stack": ListV((), "list"), "caller.user_locals": DictV([]),
+                "ev.local_sym_table": DictV([], "ev.local_sym_table")}
+        args = {"arg_str": Const("print(1)"), "eval_globals": DictV([(Const("y"), Const(2))], "$g") if g else Const(None), "eval_locals": DictV([], "$l") if l else Const(None)}
+        out = run_flow(program, uid, pol, args=args, heap=heap)
+        ex = exits(out)
+        good = bool(seen) and all(isinstance(t, DictV) and dict(t.items).get(Const("print")) == Sym(("script print",)) and dict(t.items).get(Const("log.info")) == Sym(("script log.info",)) for t in seen)
+        ctx.check(bool(ex) and good, rid, uid, f"{label}: print/log.* visible to the evaluated text",
+                  msg=f"eval()/exec() with {label}: the evaluator that runs the text has evaluator-level names {[sorted(k.v for k, _ in t.items) if isinstance(t, DictV) else repr(t) for t in seen]}: "
+                  "print / log.* of the calling script are not defined in the evaluated text (NameError instead of a line in the script's log)", key=f"eval namespaces {label}",
+                  node=program.func(uid), rel="eval.py")
